@@ -913,11 +913,41 @@ def arith_kind(F, res):
         kinds = set()
         for o in mir.provenance(f, du, {"l": 0, "p": []}):
             if o.kind == "agg" and o.rv.get("variant") == "Ok" and o.rv.get("ops"):
-                for o2 in mir.provenance(f, du, o.rv["ops"][0]):
+                def _conv_fn(t_):
+                    g_ = F.fns.get(t_.get("resolved") or "")
+                    if g_ is not None and g_.get("impl_self") == EXPRT and (g_.get("impl_trait") or "").startswith(("std::convert::From", "std::convert::Into")):
+                        return g_
+                    ga = t_.get("gargs") or []
+                    cal = t_.get("callee") or ""
+                    if (cal.endswith("::into") or cal.endswith("::from")) and "std::convert::" in cal and EXPRT in ga:
+                        # `x.into()` through std's blanket impl: the workspace's `impl From<X> for Expression`
+                        for other in ga:
+                            if other != EXPRT:
+                                tail = "<impl std::convert::From<%s> for %s>::from" % (other, EXPRT)
+                                for k_, g2_ in F.fns.items():
+                                    if k_.endswith(tail) or k_ == "<%s as std::convert::From<%s>>::from" % (EXPRT, other):
+                                        return g2_
+                    return None
+
+                def _conv(t_):
+                    return _conv_fn(t_) is not None
+                for o2 in mir.provenance(f, du, o.rv["ops"][0], stop_at_calls=_conv):
                     if o2.kind == "agg" and o2.rv.get("adt") == EXPRT:
                         kinds.add(o2.rv.get("variant"))
                     elif o2.kind == "const" and EXPRT in str(o2.const.get("ty", "")):
                         kinds.add(o2.const.get("variant") or "None")
+                    elif o2.kind == "call" and _conv(o2.term):
+                        # the result is wrapped by a conversion of the workspace (`impl From<CanonicalAssets> for Expression`):
+                        # whatever variants that conversion can build
+                        g2 = _conv_fn(o2.term)
+                        for b2 in with_closures(F, g2):
+                            for _, _, st2 in mir.stmts(b2):
+                                if st2["rv"]["k"] == "agg" and st2["rv"].get("adt") == EXPRT:
+                                    kinds.add(st2["rv"].get("variant"))
+                                elif st2["rv"]["k"] == "use":
+                                    c2 = mir.op_const(st2["rv"]["op"])
+                                    if c2 is not None and EXPRT in str(c2.get("ty", "")):
+                                        kinds.add(c2.get("variant") or "None")
         if not kinds:
             continue
         n += 1
